@@ -413,10 +413,24 @@ def gen_perturbation(rng):
                 "how": rng.choice(["set_mode", "main", "dto"])}
     if r < 0.7:
         return {"k": "env", "v": rng.choice(model.SPELLINGS + [None, ""])}
-    if r < 0.9:
+    if r < 0.82:
         return {"k": "cache_clear", "frac": rng.choice([0.2, 0.5, 1.0]),
                 "salt": rng.randrange(1 << 30)}
+    if r < 0.93:
+        return gen_scratch(rng)
     return {"k": "raise_in_helper", "y": rng.choice(HOT_YEARS)}
+
+
+def gen_scratch(rng, sp=None):
+    """Somebody else in the process builds objects of their own -- a second
+    Calendar instance set to another mode, parsers and dumpers with other
+    options -- and computes with them.  None of that is a switch of the
+    active calendar."""
+    return {"k": "scratch",
+            "how": rng.choice(["calendar", "calendar", "calendar_init",
+                               "parsers", "dumper"]),
+            "sp": sp or rng.choice(model.SPELLINGS),
+            "y": rng.choice(HOT_YEARS)}
 
 
 DIRECTED_OPS = None
@@ -516,6 +530,11 @@ def gen_directed(rng, index):
                          if variant else "set_mode_default",
                          "pr": [2000 + (i % 30), 1 + i % 12]})
         steps += ops3
+        if (i + index) % 3 == 0:
+            # ... and once more under A, with no switch in between, after
+            # someone set a Calendar instance of their own to B
+            steps.append(gen_scratch(rng, b))
+            steps.append(dict(ops3[2]))
         if variant and rng.random() < 0.05:
             steps.append(gen_perturbation(rng))
     return {"property": PROP, "kind": "directed", "index": index,
@@ -1054,6 +1073,13 @@ class Sim(object):
                 names = [n for n in sorted(world.discover_caches())
                          if rng.random() < step["frac"]]
                 world.clear_caches(set(names))
+            elif kind == "scratch":
+                how = step["how"]
+                self.count("fault.scratch." + how)
+                self.scratch(how, step["sp"], step["y"])
+                if self.model_mode is not None:
+                    self.check_mode(self.model_mode, "scratch." + how,
+                                    step_no)
             elif kind == "raise_in_helper":
                 self.count("fault.raise_in_helper")
                 for fn, args in (
@@ -1068,6 +1094,34 @@ class Sim(object):
                         pass
             else:
                 raise kernel.HarnessError("unknown step kind %r" % kind)
+
+    def scratch(self, how, sp, year):
+        from metomi.isodatetime import data, parsers, dumpers
+        try:
+            if how == "calendar":
+                cal = data.Calendar()
+                cal.set_mode(sp)
+                [cal.mode, cal.DAYS_IN_YEAR, cal.DAYS_IN_MONTHS,
+                 cal.DAYS_IN_YEAR_LEAP, cal.WEEKS_IN_YEAR]
+                self.scratch_cals = getattr(self, "scratch_cals", [])[-3:]
+                self.scratch_cals.append(cal)
+            elif how == "calendar_init":
+                data.Calendar()
+            elif how == "parsers":
+                tpp = parsers.TimePointParser(
+                    num_expanded_year_digits=3, allow_truncated=True,
+                    assumed_time_zone=(5, 30), dump_format="CCYYDDDThhmm")
+                str(tpp.parse("+00%04d-02-28T12:00" % (abs(year) % 10000)))
+                str(parsers.DurationParser().parse("P1Y2M3DT4H"))
+                parsers.TimeRecurrenceParser().parse(
+                    "R3/%04d-01-31T00Z/P1M" % (abs(year) % 10000))
+            else:
+                dmp = dumpers.TimePointDumper(num_expanded_year_digits=3)
+                dmp.dump(data.TimePoint(year=abs(year) % 10000,
+                                        month_of_year=3, day_of_month=1),
+                         "+XCCYY-DDDThh:mm:ss+hh:mm")
+        except Exception:
+            pass
 
     # ---- main loop
     def run(self):
@@ -1291,7 +1345,7 @@ def check_trace_full(trace, alarm=None):
     dig = kernel.digest([inter["transcripts"], inter["violations"], solos])
     sig = hashlib.sha256("|".join(inter["sig"]).encode()).hexdigest()[:16]
     nontrivial = any(s.startswith(("sw:", "foreign", "fail", "env", "cache",
-                                   "raise")) for s in inter["sig"])
+                                   "raise", "scratch")) for s in inter["sig"])
     return violations, {
         "counters": counters, "digest": dig, "sig": sig,
         "nontrivial": nontrivial, "states": inter["states"]}
@@ -1380,7 +1434,8 @@ def jobs_for(tier, seed):
 RULE = (
     "each case is one seeded history: 2-5 clients bound to calendar "
     "spellings, 10-150 interleaved operations plus perturbations (switch "
-    "paths, foreign use, refused switch, env var, cache clear, cache shrink); "
+    "paths, foreign use, refused switch, env var, cache clear, cache shrink, "
+    "somebody else's Calendar instance / parsers / dumpers); "
     "evaluations = client operations checked against the fresh-process solo "
     "replay; a case is non-trivial when at least one switch or perturbation "
     "fired between two checked operations, and distinct by the SHA-256 of its "
